@@ -29,69 +29,66 @@ theorem spec_accepts_model (peers : List Nat) {par : Nat} (hp : 0 < par) (ops : 
   Machine.outputs_of_step stepM Linked (· = none) (fun ms o h => (linked_step ms o h).1)
     (fun ms o h => (linked_step ms o h).2.1) ops _ (linked_init peers hp)
 
+theorem inv_step {s : Iter} (h : Inv s) (o : Op) : Inv (step s o).1 := by
+  cases o with
+  | next =>
+    simp only [step, C39.Fixed.next]
+    cases hs : s.state with
+    | finished => exact h
+    | waiting nw =>
+      obtain ⟨hnw, hle⟩ := h.nw nw hs
+      simp only
+      split
+      · exact h
+      · rename_i hcap
+        rcases pop_spec s.backlog s.peers with ⟨p, rest, sk, hpop, _, hfresh, _⟩ | ⟨hpop, _⟩
+        · rw [hpop]
+          have hpk : p ∉ fkeys s.peers := by
+            intro hc; have := (pfind_isSome_iff s.peers p).2 hc; simp [hfresh] at this
+          refine ⟨h.par_pos, ?_, ?_⟩
+          · show (fkeys (s.peers ++ [(p, FState.waiting)])).Nodup
+            simp only [fkeys, List.map_append, List.map_cons, List.map_nil]
+            rw [List.nodup_append]
+            refine ⟨h.nodup, by simp, ?_⟩
+            intro a ha b hb hab
+            simp at hb; subst hb; subst hab; exact hpk ha
+          · intro nw' hnw'
+            simp at hnw'; subst hnw'
+            show nw + 1 = countWait (s.peers ++ [(p, FState.waiting)]) ∧ nw + 1 ≤ s.parallelism
+            rw [countWait_append]; omega
+        · rw [hpop]
+          simp only
+          split
+          · exact ⟨h.par_pos, h.nodup, by intro nw' hh; simp at hh⟩
+          · exact ⟨h.par_pos, h.nodup, by intro nw' hh; simp at hh; subst hh; exact ⟨hnw, hle⟩⟩
+  | success p =>
+    rcases report_cases h p .succeeded with ⟨heq, _⟩ | ⟨nw, hs, hf, hpos, heq⟩
+    · simp only [step, onSuccess, heq]; exact h
+    · simp only [step, onSuccess, heq]
+      have hcw := countWait_pset hf .succeeded (by simp)
+      obtain ⟨hnw, hle⟩ := h.nw nw hs
+      exact ⟨h.par_pos, by show (fkeys (pset s.peers p .succeeded)).Nodup; rw [fkeys_pset]; exact h.nodup,
+        by intro nw' hh; simp at hh; subst hh
+           show nw - 1 = countWait (pset s.peers p .succeeded) ∧ nw - 1 ≤ s.parallelism
+           omega⟩
+  | failure p =>
+    rcases report_cases h p .failed with ⟨heq, _⟩ | ⟨nw, hs, hf, hpos, heq⟩
+    · simp only [step, onFailure, heq]; exact h
+    · simp only [step, onFailure, heq]
+      have hcw := countWait_pset hf .failed (by simp)
+      obtain ⟨hnw, hle⟩ := h.nw nw hs
+      exact ⟨h.par_pos, by show (fkeys (pset s.peers p .failed)).Nodup; rw [fkeys_pset]; exact h.nodup,
+        by intro nw' hh; simp at hh; subst hh
+           show nw - 1 = countWait (pset s.peers p .failed) ∧ nw - 1 ≤ s.parallelism
+           omega⟩
+  | finish =>
+    simp only [step, C39.Fixed.finish]
+    cases hs : s.state with
+    | finished => exact h
+    | waiting nw => exact ⟨h.par_pos, h.nodup, by intro nw' hh; simp at hh⟩
+
 theorem inv_reach (peers : List Nat) {par : Nat} (hp : 0 < par) (ops : List Op) : Inv (reach peers par ops) :=
-  Machine.invariant_of_step step Inv
-    (fun s o h => by
-      -- any monitor state linked to `s` will do; the invariant part of `step_ok` does not use it
-      exact (inv_step h o)) ops _ (Inv.init peers hp)
-where
-  inv_step {s : Iter} (h : Inv s) (o : Op) : Inv (step s o).1 := by
-    cases o with
-    | next =>
-      simp only [step, C39.Fixed.next]
-      cases hs : s.state with
-      | finished => exact h
-      | waiting nw =>
-        obtain ⟨hnw, hle⟩ := h.nw nw hs
-        simp only
-        split
-        · exact h
-        · rename_i hcap
-          rcases pop_spec s.backlog s.peers with ⟨p, rest, sk, hpop, _, hfresh, _⟩ | ⟨hpop, _⟩
-          · rw [hpop]
-            have hpk : p ∉ fkeys s.peers := by
-              intro hc; have := (pfind_isSome_iff s.peers p).2 hc; simp [hfresh] at this
-            refine ⟨h.par_pos, ?_, ?_⟩
-            · show (fkeys (s.peers ++ [(p, FState.waiting)])).Nodup
-              simp only [fkeys, List.map_append, List.map_cons, List.map_nil]
-              rw [List.nodup_append]
-              refine ⟨h.nodup, by simp, ?_⟩
-              intro a ha b hb hab
-              simp at hb; subst hb; subst hab; exact hpk ha
-            · intro nw' hnw'
-              simp at hnw'; subst hnw'
-              show nw + 1 = countWait (s.peers ++ [(p, FState.waiting)]) ∧ nw + 1 ≤ s.parallelism
-              rw [countWait_append]; omega
-          · rw [hpop]
-            simp only
-            split
-            · exact ⟨h.par_pos, h.nodup, by intro nw' hh; simp at hh⟩
-            · exact ⟨h.par_pos, h.nodup, by intro nw' hh; simp at hh; subst hh; exact ⟨hnw, hle⟩⟩
-    | success p =>
-      rcases report_cases h p .succeeded with ⟨heq, _⟩ | ⟨nw, hs, hf, hpos, heq⟩
-      · simp only [step, onSuccess, heq]; exact h
-      · simp only [step, onSuccess, heq]
-        have hcw := countWait_pset hf .succeeded (by simp)
-        obtain ⟨hnw, hle⟩ := h.nw nw hs
-        exact ⟨h.par_pos, by show (fkeys (pset s.peers p .succeeded)).Nodup; rw [fkeys_pset]; exact h.nodup,
-          by intro nw' hh; simp at hh; subst hh
-             show nw - 1 = countWait (pset s.peers p .succeeded) ∧ nw - 1 ≤ s.parallelism
-             omega⟩
-    | failure p =>
-      rcases report_cases h p .failed with ⟨heq, _⟩ | ⟨nw, hs, hf, hpos, heq⟩
-      · simp only [step, onFailure, heq]; exact h
-      · simp only [step, onFailure, heq]
-        have hcw := countWait_pset hf .failed (by simp)
-        obtain ⟨hnw, hle⟩ := h.nw nw hs
-        exact ⟨h.par_pos, by show (fkeys (pset s.peers p .failed)).Nodup; rw [fkeys_pset]; exact h.nodup,
-          by intro nw' hh; simp at hh; subst hh
-             show nw - 1 = countWait (pset s.peers p .failed) ∧ nw - 1 ≤ s.parallelism
-             omega⟩
-    | finish =>
-      simp only [step, C39.Fixed.finish]
-      cases hs : s.state with
-      | finished => exact h
-      | waiting nw => exact ⟨h.par_pos, h.nodup, by intro nw' hh; simp at hh⟩
+  Machine.invariant_of_step step Inv (fun s o h => inv_step h o) ops _ (Inv.init peers hp)
 
 /-- **In-flight bound**: after any operation sequence the number of pending requests is the number
 of `Waiting` peers and never exceeds `parallelism`; no call panics. -/
@@ -160,11 +157,11 @@ theorem monRun_lists (ops : List Op) : ∀ ms : Mon × Iter, Linked ms → ms.1.
     have e2 : (stepM ms o).1.2 = (step ms.2 o).1 := rfl
     have hn' : (stepM ms o).1.1.issued.Nodup := by
       rw [e1, l1]
-      unfold issuedOf at l3 ⊢
-      split
-      · rename_i p
-        exact List.nodup_cons.2 ⟨l3 p rfl, hn⟩
-      · exact hn
+      have hcases : issuedOf o (step ms.2 o).2 = [] ∨ ∃ p, issuedOf o (step ms.2 o).2 = [p] := by
+        unfold issuedOf; split <;> simp
+      rcases hcases with he | ⟨p, he⟩
+      · rw [he]; simpa using hn
+      · rw [he]; exact List.nodup_cons.2 ⟨l3 p he, hn⟩
     obtain ⟨i1, i2, i3, i4⟩ := ih _ hl hn'
     simp only [Machine.exec, List.foldl_cons] at i1 i2 i3 i4 ⊢
     refine ⟨?_, ?_, i3, i4⟩
@@ -193,6 +190,30 @@ theorem each_peer_once (peers : List Nat) {par : Nat} (hp : 0 < par) (ops : List
   rw [List.Nodup, List.pairwise_reverse] at i3
   exact i3.imp (fun h => h.symm)
 
+theorem mem_result_iff (l : List (Nat × FState)) (hnd : (fkeys l).Nodup) (q : Nat) :
+    q ∈ (l.filter (fun e => e.2 = .succeeded)).map (·.1) ↔ pfind l q = some .succeeded := by
+  induction l with
+  | nil => simp [pfind]
+  | cons a t ih =>
+    obtain ⟨k, st⟩ := a
+    simp only [fkeys, List.map_cons, List.nodup_cons] at hnd
+    have ih' := ih hnd.2
+    by_cases hk : k = q
+    · subst hk
+      have hnot : k ∉ (t.filter (fun e => e.2 = .succeeded)).map (·.1) := by
+        intro hc
+        obtain ⟨e, he, hek⟩ := List.mem_map.1 hc
+        exact hnd.1 (List.mem_map.2 ⟨e, (List.mem_filter.1 he).1, hek⟩)
+      by_cases hs : st = .succeeded
+      · simp [pfind, List.filter_cons, hs]
+      · simp [pfind, List.filter_cons, hs, hnot]
+    · have hqk : ¬ q = k := fun h => hk h.symm
+      by_cases hs : st = .succeeded
+      · simp only [pfind, hk, if_false, ← ih']
+        simp [List.filter_cons, hs, hqk]
+      · simp only [pfind, hk, if_false, ← ih']
+        simp [List.filter_cons, hs]
+
 /-- **Result = the responders**: after any operation sequence `into_result()` contains exactly the
 peers for which an `on_success` call returned `true`, each once; every one of them was issued. -/
 theorem result_exact (peers : List Nat) {par : Nat} (hp : 0 < par) (ops : List Op) :
@@ -203,39 +224,10 @@ theorem result_exact (peers : List Nat) {par : Nat} (hp : 0 < par) (ops : List O
     (by simp [monInit])
   have hs : (Machine.exec stepM (monInit peers par, init peers par) ops).2 = reach peers par ops :=
     exec_stepM_snd ops _
-  rw [hs] at hl
-  have hmem : ∀ q, q ∈ result (reach peers par ops) ↔ pfind (reach peers par ops).peers q = some .succeeded := by
-    intro q
-    have hnd := hl.1.nodup
-    generalize (reach peers par ops).peers = l at hnd ⊢
-    simp only [result, List.mem_map, List.mem_filter]
-    constructor
-    · rintro ⟨e, ⟨he, hsu⟩, rfl⟩
-      simp at hsu
-      clear hl
-      induction l with
-      | nil => simp at he
-      | cons a t ih =>
-        obtain ⟨k, st⟩ := a
-        simp only [fkeys, List.map_cons, List.nodup_cons] at hnd
-        rcases List.mem_cons.1 he with rfl | he
-        · simp [pfind, hsu]
-        · have hne : k ≠ e.1 := by
-            intro hk; exact hnd.1 (hk ▸ List.mem_map.2 ⟨e, he, rfl⟩)
-          simp only [pfind, hne, if_false]
-          exact ih he hnd.2
-    · intro hf
-      clear hl hnd
-      induction l with
-      | nil => simp [pfind] at hf
-      | cons a t ih =>
-        obtain ⟨k, st⟩ := a
-        by_cases hk : k = q
-        · subst hk; simp [pfind] at hf; subst hf
-          exact ⟨(k, .succeeded), ⟨List.mem_cons_self, by simp⟩, rfl⟩
-        · simp only [pfind, hk, if_false] at hf
-          obtain ⟨e, ⟨he, hsu⟩, hq⟩ := ih hf
-          exact ⟨e, ⟨List.mem_cons_of_mem _ he, hsu⟩, hq⟩
+  have hl : Inv (reach peers par ops) ∧
+      R (Machine.exec stepM (monInit peers par, init peers par) ops).1 (reach peers par ops) := by
+    have := hl; unfold Linked at this; rwa [hs] at this
+  have hmem := fun q => mem_result_iff (reach peers par ops).peers hl.1.nodup q
   refine ⟨?_, ?_, ?_⟩
   · intro q
     rw [hmem q, ← hl.2.accepted q, i2]
@@ -299,7 +291,7 @@ theorem measure_step {s : Iter} (h : Inv s) (op : Op) :
     simp only [step, C39.Fixed.finish, effective]
     cases hs : s.state with
     | finished => simp
-    | waiting nw => simp [phi, numWaiting, hs, fin01]
+    | waiting nw => simp [phi, numWaiting, hs, fin01]; omega
 
 def effCount : Iter → List Op → Nat
   | _, [] => 0
@@ -316,7 +308,7 @@ theorem terminates (peers : List Nat) {par : Nat} (hp : 0 < par) (ops : List Op)
     | cons o os ih =>
       intro s h
       have h1 := measure_step h o
-      have h2 := ih (step s o).1 (inv_reach.inv_step h o)
+      have h2 := ih (step s o).1 (inv_step h o)
       simp only [effCount, Machine.exec, List.foldl_cons] at h2 ⊢
       omega
   have h0 := this ops _ (Inv.init peers hp)
